@@ -104,13 +104,15 @@ pub fn net() -> &'static Net {
                             match b.answer.as_str() {
                                 "success" | "greet" => out.extend(ext_response(id, 0)),
                                 "garbage" => out.extend([0x30, 0x03, 0x02, 0x01, 0x05, 0xff, 0xff, 0xff]),
+                                // an ExtendedResponse under the right id whose resultCode has no content octets (F51): not a result code, not success
+                                "rcempty" => out.extend(enc(&message(id, c(TagClass::Application, 24, vec![p(TagClass::Universal, 10, b""), octets(b""), octets(b"")]), None))),
                                 "close" => { return; }
                                 "otherid" => { out.extend(enc(&message(0, c(TagClass::Application, 24, vec![enum_tag(0), octets(b""), octets(b"note"), p(TagClass::Context, 10, b"1.3.6.1.4.1.1466.20036")]), None))); out.extend(ext_response(id, 0)); }
                                 rc => out.extend(ext_response(id, rc.trim_start_matches("rc").parse().unwrap_or(2))),
                             }
                             out.extend(&b.extra);
                             if s.write_all(&out).await.is_err() { return; }
-                            if !(b.answer == "success" || b.answer == "otherid" || b.answer == "rc0" || b.answer == "greet") {
+                            if !(b.answer == "success" || b.answer == "otherid" || b.answer == "rc0" || b.answer == "greet" || b.answer == "rcempty") {
                                 // no TLS follows: whatever else arrives in the clear is logged
                                 loop { match tokio::time::timeout(Duration::from_millis(1500), s.read(&mut buf)).await { Ok(Ok(n)) if n > 0 => ev.lock().unwrap().push(format!("clear:{}", if buf[0] == 0x16 { "tls-hello" } else { "other-ldap" })), _ => return } }
                             }
@@ -307,7 +309,8 @@ pub fn gen_tls(rng: &mut Rng, n: usize, out: &mut Vec<String>) {
                   "tls ldap 1 0 ca greet trusted 1 -", "tls ldap 1 1 none greet selfsigned 1 -", "tls ldap 1 1 none greet wrongname 1 -", "tls ldap 1 0 ca greet trusted 0 -", "tls ldap 1 0 ca greet trusted 1 forged", "tls ldap 1 0 ca rc4294967296 trusted 1 -", "tls ldap 1 1 none rc227633266688 selfsigned 1 -",
                   "tls ldaps 0 0 ca success trusted 1 v6", "tls ldap 1 0 ca success trusted 1 v6", "tls ldaps 0 0 ca success wrongname 1 v6", "tls ldaps 0 0 none success trusted 1 v6", "tls ldaps 0 1 none success selfsigned 1 v6",
                   // a certificate from the trusted CA that names the host "localhost" only, presented at an address written as an IPv6 literal
-                  "tls ldaps 0 0 ca success dnsonly 1 v6", "tls ldap 1 0 ca success dnsonly 1 v6"] {
+                  "tls ldaps 0 0 ca success dnsonly 1 v6", "tls ldap 1 0 ca success dnsonly 1 v6",
+                  "tls ldap 1 0 ca rcempty trusted 1 -", "tls ldap 1 1 none rcempty selfsigned 1 -"] {
         if !out.iter().any(|x| x == fixed) { out.push(fixed.to_string()); }
     }
 }
